@@ -15,6 +15,9 @@ import sys
 import tempfile
 
 TMP = tempfile.mkdtemp(prefix="verifmods_")
+import atexit  # noqa: E402
+import shutil  # noqa: E402
+atexit.register(shutil.rmtree, TMP, True)
 N = 6
 with open(os.path.join(TMP, "verifmods.py"), "w") as f:
     f.write('''
